@@ -46,6 +46,10 @@ def q_of(case, params_flat):
     if case["family"] in ("mean_field", "two_site"):
         mu, ls = params_flat[:d], params_flat[d:]
         return np.asarray(mu), np.diag(np.exp(2 * np.asarray(ls)))
+    if case["family"] in ("shared_mean", "per_site"):  # vectorized scalar sites: one shared location (or one each), a scale per coordinate
+        k = 1 if case["family"] == "shared_mean" else d
+        mu = np.full(d, params_flat[0]) if k == 1 else np.asarray(params_flat[:d])
+        return mu, np.diag(np.exp(2 * np.asarray(params_flat[k:k + d])))
     mu = np.asarray(params_flat[:d])
     L = np.asarray(params_flat[d:]).reshape(d, d)
     return mu, L @ L.T
@@ -56,13 +60,13 @@ def to_params(case, flat):
 
     d = case["d"]
     flat = np.asarray(flat, dtype=np.float32)
-    if case["family"] in ("mean_field", "two_site"):
+    if case["family"] in ("mean_field", "two_site", "shared_mean", "per_site"):
         return jnp.asarray(flat)
     return {"mean": jnp.asarray(flat[:d]), "chol_cov": jnp.asarray(flat[d:].reshape(d, d))}
 
 
 def flat_of(case, tree):
-    if case["family"] in ("mean_field", "two_site"):
+    if case["family"] in ("mean_field", "two_site", "shared_mean", "per_site"):
         return np.asarray(tree, dtype=np.float64)
     return np.concatenate([np.asarray(tree["mean"], dtype=np.float64).ravel(), np.asarray(tree["chol_cov"], dtype=np.float64).ravel()])
 
@@ -102,6 +106,23 @@ def build(case):
 
         cons2 = {"ya": jnp.asarray(np.float32(y[0])), "yb": jnp.asarray(np.float32(y[1]))}
         return target2, fam2, cons2, elbo_factory(target2, fam2, cons2, ())
+    if case["family"] in ("shared_mean", "per_site"):
+        # a user-written family built from *vectorized scalar* ADEV sites: location shared by all coordinates (in_axes None) or
+        # one per coordinate, a scale per coordinate; the target couples the coordinates through its covariances
+        from genjax.adev import normal_reinforce, normal_reparam
+
+        site = {"reparam": normal_reparam, "reinforce": normal_reinforce}[case["estimator"]]
+        shared = case["family"] == "shared_mean"
+
+        @gen
+        def fam_v(constraint, params):
+            if shared:
+                site.vmap(in_axes=(None, 0))(params[0], jnp.exp(params[1:1 + d])) @ "x"
+            else:
+                site.vmap(in_axes=(0, 0))(params[:d], jnp.exp(params[d:2 * d])) @ "x"
+
+        cons = {"y": jnp.asarray(y, dtype=jnp.float32)}
+        return target, fam_v, cons, elbo_factory(target, fam_v, cons, ())
     fam = (mean_field_normal_family if case["family"] == "mean_field" else full_covariance_normal_family)(d, case["estimator"])
     cons = {"y": jnp.asarray(y, dtype=jnp.float32)}
     return target, fam, cons, elbo_factory(target, fam, cons, ())
@@ -115,13 +136,13 @@ def classify(case, ctx=None, n1=4000):
 
     d, m0, S0, R, y, m, P, logZ = problem(case)
     C = f"{case['family']}:{case['estimator']}:d{d}"
-    mf = case["family"] in ("mean_field", "two_site")
+    mf = case["family"] in ("mean_field", "two_site", "shared_mean", "per_site")
     fails, info = [], {"log_evidence": logZ}
     c = ctx if ctx is not None else type("C", (), {"stat_tests": 0, "stat_stage2": 0})()
     try:
         target, fam, cons, elbo = impl(build, case)
         # 1. tight at the posterior: exact for every draw
-        if case["family"] == "full_cov" or np.allclose(P, np.diag(np.diag(P)), atol=1e-9):
+        if case["family"] == "full_cov" or (np.allclose(P, np.diag(np.diag(P)), atol=1e-9) and case["family"] != "shared_mean"):
             if case["family"] == "full_cov":
                 post_flat = np.concatenate([m, np.linalg.cholesky(P).ravel()])
             else:
@@ -134,7 +155,8 @@ def classify(case, ctx=None, n1=4000):
                     break
             info["posterior_checked"] = True
         # 2./3. unbiased value and gradient at a generic q
-        flat = np.asarray(case["params"][: (2 * d if mf else d + d * d)], dtype=np.float32).astype(np.float64)
+        npar = (1 + d) if case["family"] == "shared_mean" else (2 * d if mf else d + d * d)
+        flat = np.asarray(case["params"][:npar], dtype=np.float32).astype(np.float64)
         if case["family"] == "full_cov":
             M = flat[d:].reshape(d, d)  # a Cholesky factor has a positive diagonal (a zero entry makes q singular: not a density)
             L = np.tril(M, -1) + np.diag(0.4 + np.abs(np.diag(M)))
@@ -289,7 +311,7 @@ def cases():
     mat = st.lists(st.lists(f(-0.8, 0.8), min_size=3, max_size=3), min_size=3, max_size=3)
     conj = st.fixed_dictionaries({"kind": st.just("conjugate"), "d": st.integers(1, 3), "m0": st.lists(f(-1, 1), min_size=3, max_size=3), "B0": mat, "lam0": st.sampled_from([0.5, 1.0]),
                                   "BR": mat, "lamR": st.sampled_from([0.3, 0.8]), "y": st.lists(f(-1.5, 1.5), min_size=3, max_size=3),
-                                  "family": st.sampled_from(["mean_field", "mean_field", "full_cov", "two_site"]), "estimator": st.sampled_from(["reparam", "reinforce"]),
+                                  "family": st.sampled_from(["mean_field", "mean_field", "full_cov", "two_site", "shared_mean", "per_site"]), "estimator": st.sampled_from(["reparam", "reinforce"]),
                                   "pair": st.sampled_from(["reinforce+reinforce", "reparam+reinforce", "reinforce+reparam"]),
                                   "params": st.lists(f(-0.6, 0.6), min_size=12, max_size=12), "lr": st.sampled_from([0.01, 0.05]), "n_iter": st.integers(2, 6), "key": st.integers(0, 2**30)})
     rec = st.fixed_dictionaries({"kind": st.just("recursion"), "objective": st.sampled_from(["quadratic", "enum"]), "a": st.lists(f(-1, 1), min_size=2, max_size=2),
